@@ -344,6 +344,8 @@ def run(ctx: Ctx) -> None:
         deepl = {k: deepl, "s" + k: "x y"}
     corpus += [{"l": [2, 2.0, 1.0, 1, True, 10**16, 1e16, 0, 0.0, False, -0.0, 0]}, {"a": 1, "b": 1.0, "c": True, "m": [[1, 1.0], [1.0, 1]]}]
     corpus += [{"k": ["#", "include", "foo"], "l": ["#", "includes"], "m": "#", "n": ["a", "#"]}]
+    corpus += [{"k": list(gen.DIRECTIVE_WORDS), "l": [gen.DIRECTIVE_WORDS[0], "x"], "n": {"m": [[gen.DIRECTIVE_WORDS[1]], {"z": 1}, gen.DIRECTIVE_WORDS[3]]}}]
+    corpus += [{"l": [w] + ["x"] * 9 + [w]} for w in gen.DIRECTIVE_WORDS[:6]]          # item 0 and item 10 start a line
     corpus += [{"k": "yes", "l": ["no", "yes", "y", "n", "t", "f", "nil", "~"], "n": {"m": "no"}}]
     corpus += [deep, deepl, {"encoding": "latin-1", "author": "Jörg Müller"}, {"coding": "utf-16", "t": "é"}]
     for d in corpus:
